@@ -62,9 +62,40 @@ func textVal(t *verifsim.Tape) string {
 	return b.String()
 }
 
+// acceptElement is one media range with optional parameters.
+func acceptElement(t *verifsim.Tape) string {
+	var mt string
+	switch t.Draw("acc-el", 8) {
+	case 0, 1, 2, 3:
+		mt = supportedMT[t.Draw("sup", len(supportedMT))]
+	case 4:
+		mt = []string{"*/*", "application/*", "text/*"}[t.Draw("wild", 3)]
+	case 5:
+		mt = "application/vnd.api+" + []string{"json", "xml", "gob"}[t.Draw("suffix", 3)]
+	case 6:
+		mt = []string{"image/png", "application/pdf", "application/xhtml+xml"}[t.Draw("unsup", 3)]
+	default:
+		m := supportedMT[t.Draw("sup", len(supportedMT))]
+		mt = strings.ToUpper(m[:1]) + m[1:5] + strings.ToUpper(m[5:])
+	}
+	switch t.Draw("acc-par", 8) {
+	case 0:
+		mt += ";q=0." + string("123456789"[t.Draw("q", 9)])
+	case 1:
+		mt += "; q=0." + string("123456789"[t.Draw("q", 9)])
+	case 2:
+		mt += "; charset=utf-8"
+	case 3:
+		mt += "; charset=utf-8; q=0.5"
+	case 4:
+		mt += []string{"; q", ";", "; =1", ";q=", "; level=1;"}[t.Draw("badpar", 5)]
+	}
+	return mt
+}
+
 func genAccept(t *verifsim.Tape) (val string, present bool, class string) {
 	sup := func() string { return supportedMT[t.Draw("sup", len(supportedMT))] }
-	switch t.Draw("accept", 11) {
+	switch t.Draw("accept", 13) {
 	case 0:
 		return "", false, "absent"
 	case 1:
@@ -86,6 +117,14 @@ func genAccept(t *verifsim.Tape) (val string, present bool, class string) {
 		return []string{"image/png", "application/pdf", "application/x-www-form-urlencoded"}[t.Draw("unsup", 3)], true, "unsupported"
 	case 9:
 		return []string{";;;", "a/b/c", "json", "application/", "/", "application/json;", ",", "q=1"}[t.Draw("garbage", 8)], true, "garbage"
+	case 10, 11:
+		// composed: 1-4 media ranges, each with optional (possibly malformed) parameters
+		n := 1 + t.Draw("acc-n", 4)
+		els := make([]string, n)
+		for i := range els {
+			els[i] = acceptElement(t)
+		}
+		return strings.Join(els, []string{", ", ","}[t.Draw("acc-sep", 2)]), true, "composed"
 	default:
 		return "", true, "empty"
 	}
@@ -215,6 +254,14 @@ func runC15(t *verifsim.Tape, cfg engine.Config) *engine.Outcome {
 	faulty := t.Draw("faulty-run", 3) == 2 // fault-free and fault-injecting runs are separate
 	var samples []c15case
 	distinct := map[string]bool{}
+	// history oracle: a decoded value stays what it was while later exchanges happen
+	type kept struct {
+		got  func() any
+		want any
+		sig  string
+		ci   int
+	}
+	var retained []kept
 	for ci := 0; ci < nCases; ci++ {
 		c := c15case{Dir: "response"}
 		if t.Draw("dir", 10) < 3 {
@@ -312,6 +359,9 @@ func runC15(t *verifsim.Tape, cfg engine.Config) *engine.Outcome {
 					}
 				}
 				continue
+			}
+			if derr == nil {
+				retained = append(retained, kept{get, val, sig, ci})
 			}
 			if derr != nil {
 				o.Violate("roundtrip_decode_error", sig, "body written under Content-Type %q does not decode: %v; body=%q (Accept %q present=%v, designed %q, pre-set %q)", sentCT, derr, clip(ex.RespBody), c.Accept, c.HasAccept, c.CT, c.Preset)
@@ -427,6 +477,9 @@ func runC15(t *verifsim.Tape, cfg engine.Config) *engine.Outcome {
 					o.Violate("unsupported_not_415", sig, "request Content-Type %q answered with %d (decode error: %v)", c.ReqCT, resp.StatusCode, derr)
 				}
 			default:
+				if derr == nil {
+					retained = append(retained, kept{get, val, sig, ci})
+				}
 				if derr != nil {
 					o.Violate("request_decode_error", sig, "request body in %s under Content-Type %q does not decode: %v; body=%q", class, c.ReqCT, derr, clip(body.Bytes()))
 				} else if !sameValue(get(), val) {
@@ -438,6 +491,13 @@ func runC15(t *verifsim.Tape, cfg engine.Config) *engine.Outcome {
 			samples = append(samples, c)
 		}
 	}
+	for _, k := range retained {
+		o.Features["retained_rechecked"]++
+		if !sameValue(k.got(), k.want) {
+			o.Violate("decoded_value_changed_later", "retained:"+k.sig, "the value decoded in exchange %d was correct when decoded and is %v after later exchanges (sent %v)", k.ci, show(k.got()), show(k.want))
+			break
+		}
+	}
 	o.Nontrivial = true
 	ks := make([]string, 0, len(distinct))
 	for k := range distinct {
@@ -446,6 +506,7 @@ func runC15(t *verifsim.Tape, cfg engine.Config) *engine.Outcome {
 	o.Extra = map[string]string{"distinct_keys": strings.Join(sortStrings(ks), "\n")}
 	o.Distinct = hex.EncodeToString(h.Sum(nil))[:16]
 	o.Digest = o.Distinct
+	o.Features["_evaluations"] = nCases
 	o.Sample = samples
 	return o
 }
